@@ -204,9 +204,14 @@ func (c *Classifier) match(in io.Reader) (Results, error) {
 			out = append(out, candidates[i])
 		}
 	}
+	// An input without any words has no tokens (and no line attributed to one).
+	totalLines := 0
+	if len(id.Tokens) > 0 {
+		totalLines = id.Tokens[len(id.Tokens)-1].Line
+	}
 	return Results{
 		Matches:         out,
-		TotalInputLines: id.Tokens[len(id.Tokens)-1].Line,
+		TotalInputLines: totalLines,
 	}, nil
 }
 
